@@ -224,7 +224,7 @@ func (g *G) boolExpr(s *st, depth int) string {
 // operator goroutine this kills the process), so nameof is only applied to
 // input fields that are never a null type value, or to this.
 func (g *G) nameofArg(s *st, f *Field, ref string) string {
-	if f != nil && !f.Generic && ref == f.Name {
+	if f != nil && !f.Generic && ref == f.Name && !strings.Contains(ref, ".") {
 		nullType := false
 		for _, t := range f.Types {
 			if t == "type" && f.Null {
